@@ -149,7 +149,27 @@ impl<'a, S, A> ldap3::adapters::Adapter<'a, S, A> for Tick where S: AsRef<str> +
         loop { if let Ok(r) = tokio::time::timeout(std::time::Duration::from_millis(50), stream.next()).await { return r; } } }
     async fn finish(&mut self, stream: &mut ldap3::SearchStream<'a, S, A>) -> ldap3::result::LdapResult { stream.finish().await }
 }
-pub fn gen_useradapter(_rng: &mut Rng, _n: usize, out: &mut Vec<String>) { for v in ["fail 0", "fail 1", "tick 0", "tick 1"] { out.push(format!("useradapter {}", v)); } }
+/// "tail": after giving up its pending call up the chain the adapter asks for the rest of the chain (adapter_chain_tail(), meant for configuring
+/// sub-searches): it must get the adapters below itself (F55). "pagedfail": an adapter BELOW PagedResults fails on its own at the end of a
+/// page that is not the last: finish() must report the cancellation, not that page's result with its live cookie (F56).
+#[derive(Clone, Debug)] struct TailProbe { seen: std::sync::Arc<std::sync::Mutex<Vec<usize>>> }
+#[derive(Clone, Debug)] struct FailAtEnd;
+#[async_trait::async_trait]
+impl<'a, S, A> ldap3::adapters::Adapter<'a, S, A> for TailProbe where S: AsRef<str> + Clone + std::fmt::Debug + Send + Sync + 'a, A: AsRef<[S]> + Clone + std::fmt::Debug + Send + Sync + 'a {
+    async fn start(&mut self, stream: &mut ldap3::SearchStream<'a, S, A>, base: &str, scope: Scope, filter: &str, attrs: A) -> ldap3::result::Result<()> { stream.start(base, scope, filter, attrs).await }
+    async fn next(&mut self, stream: &mut ldap3::SearchStream<'a, S, A>) -> ldap3::result::Result<Option<ResultEntry>> {
+        loop { match tokio::time::timeout(std::time::Duration::from_millis(50), stream.next()).await { Ok(r) => return r,
+            Err(_) => { let n = stream.adapter_chain_tail().await.len(); self.seen.lock().unwrap().push(n); } } } }
+    async fn finish(&mut self, stream: &mut ldap3::SearchStream<'a, S, A>) -> ldap3::result::LdapResult { stream.finish().await }
+}
+#[async_trait::async_trait]
+impl<'a, S, A> ldap3::adapters::Adapter<'a, S, A> for FailAtEnd where S: AsRef<str> + Clone + std::fmt::Debug + Send + Sync + 'a, A: AsRef<[S]> + Clone + std::fmt::Debug + Send + Sync + 'a {
+    async fn start(&mut self, stream: &mut ldap3::SearchStream<'a, S, A>, base: &str, scope: Scope, filter: &str, attrs: A) -> ldap3::result::Result<()> { stream.start(base, scope, filter, attrs).await }
+    async fn next(&mut self, stream: &mut ldap3::SearchStream<'a, S, A>) -> ldap3::result::Result<Option<ResultEntry>> {
+        match stream.next().await? { Some(e) => Ok(Some(e)), None => Err(ldap3::LdapError::AdapterInit("the adapter's own error at the end of a page".into())) } }
+    async fn finish(&mut self, stream: &mut ldap3::SearchStream<'a, S, A>) -> ldap3::result::LdapResult { stream.finish().await }
+}
+pub fn gen_useradapter(_rng: &mut Rng, _n: usize, out: &mut Vec<String>) { for v in ["fail 0", "fail 1", "tick 0", "tick 1", "tail 1", "pagedfail 0"] { out.push(format!("useradapter {}", v)); } }
 async fn run_useradapter(args: &[String]) -> (String, Option<String>) {
     let mut sess = new_sess();
     let table = sess.ldap.verif_id_table_handle();
@@ -167,6 +187,34 @@ async fn run_useradapter(args: &[String]) -> (String, Option<String>) {
         let o = if !matches!(a, Ok(Some(_))) || b.is_ok() { Some(format!("harness: expected an entry and then the adapter's error, got {:?} / {:?}", a.map(|x| x.is_some()), b.map(|x| x.is_some()))) }
             else if res.rc != 88 { Some(format!("finish() before the end must return 88, returned {}", res.rc)) }
             else if lf != (0, 0, 0) { Some(format!("F53: the stream failed with an error raised by an adapter while its Search was in progress; after finish() {} ids are still reserved and {}/{} routing entries remain", lf.0, lf.1, lf.2)) } else { None };
+        return ("oracle-only".into(), o);
+    }
+    if args[0] == "pagedfail" {
+        let ads: Vec<Box<dyn ldap3::adapters::Adapter<_, _>>> = vec![Box::new(PagedResults::new(2)), Box::new(FailAtEnd)];
+        let mut script = vec![]; for k in 1..=2 { script.extend(item_msg(1, 'e', k, &[])); }
+        let pr = control(b"1.2.840.113556.1.4.319", None, Some(&enc(&crate::lanes::frame::seq(vec![crate::lanes::frame::int_tag(0), octets(b"cookie-1")]))));
+        script.extend(done_msg(1, 0, &[], vec![pr]));
+        let fut = l.streaming_search_with(ads, "dc=x", Scope::Subtree, "(a=b)", vec!["cn"]);
+        let mut st = match fut.await { Ok(s) => s, Err(e) => return ("oracle-only".into(), Some(format!("harness: start failed {:?}", e))) };
+        sess.send(&script).await; settle().await;
+        let (a, b, c3) = (st.next().await, st.next().await, st.next().await);
+        let res = st.finish().await; settle().await;
+        let paged_in = res.ctrls.iter().any(|c| c.1.ctype == "1.2.840.113556.1.4.319");
+        let o = if !matches!(a, Ok(Some(_))) || !matches!(b, Ok(Some(_))) || c3.is_ok() { Some(format!("harness: expected two entries and then the adapter's error, got {:?}/{:?}/{:?}", a.map(|x| x.is_some()), b.map(|x| x.is_some()), c3.map(|x| x.is_some()))) }
+            else if res.rc != 88 || paged_in { Some(format!("F56: an adapter below PagedResults failed at the end of page 1 of a longer search; finish() returned code {} (paging control with a live cookie in it: {}) instead of the cancellation 88", res.rc, paged_in)) } else { None };
+        return ("oracle-only".into(), o);
+    }
+    if args[0] == "tail" {
+        let seen = std::sync::Arc::new(std::sync::Mutex::new(vec![]));
+        let ads: Vec<Box<dyn ldap3::adapters::Adapter<_, _>>> = vec![Box::new(TailProbe { seen: seen.clone() }), Box::new(EntriesOnly::new())];
+        let mut st = match l.streaming_search_with(ads, "dc=x", Scope::Subtree, "(a=b)", vec!["cn"]).await { Ok(s) => s, Err(e) => return ("oracle-only".into(), Some(format!("harness: start failed {:?}", e))) };
+        let h = tokio::spawn(async move { let r = st.next().await; (r.map(|x| x.is_some()).map_err(|e| format!("{:?}", e)), st) });
+        settle().await; tokio::time::advance(std::time::Duration::from_millis(130)).await; settle().await;
+        sess.send(&item_msg(1, 'e', 7, &[])).await; settle().await;
+        tokio::time::advance(std::time::Duration::from_millis(60)).await; settle().await; tokio::time::advance(std::time::Duration::from_millis(60)).await; settle().await;
+        let sv = seen.lock().unwrap().clone();
+        let o = if !h.is_finished() { Some("harness: next() did not return".to_string()) } else if sv.is_empty() { Some("harness: the adapter never gave up a call".to_string()) }
+            else if sv.iter().any(|n| *n != 1) { Some(format!("F55: after giving up its pending call up the chain the first adapter of [TailProbe, EntriesOnly] asked for the rest of the chain and got {:?} adapters (one is below it)", sv)) } else { None };
         return ("oracle-only".into(), o);
     }
     let mut ads: Vec<Box<dyn ldap3::adapters::Adapter<_, _>>> = vec![Box::new(Tick)]; if below { ads.push(Box::new(EntriesOnly::new())); }
